@@ -718,17 +718,9 @@ example : Fair 2 [.th 0, .consume 1, .th 1] := by
 
 /-! ### Tie to the Go source -/
 
-/-- The copy the model performs in `Write` IS the translated `service.ringCopy`
-(`Generated/Xlate.lean`, regenerated from buffer.go on every check) applied to the ring, the bytes
-and `pos & mask` — for every loop budget ≥ 3; and the cell index `pos % 2^k` is the code's
-`pos & (size − 1)` (`C14_idx_is_source` ties that to the translated Go expression). -/
-theorem C17_wrap_ringCopy_is_source (k fuel : Nat) (hf : 3 ≤ fuel) (ring src : List UInt8) (pos : Nat)
-    (hlen : ring.length = 2 ^ k) (hS : src.length ≤ 2 ^ k) :
-    Mqtt.Generated.Xlate.Service.ringCopy fuel ring src ((pos % 2 ^ k : Nat) : Int) =
-      .ok (ringPut ring src (pos % 2 ^ k), src.length) ∧
-    pos % 2 ^ k = pos &&& (2 ^ k - 1) :=
-  ⟨ringPut_is_source fuel hf (2 ^ k) (Nat.two_pow_pos k) ring src pos hlen hS,
-   (Nat.and_two_pow_sub_one_eq_mod pos k).symm⟩
+/-! The copy the model performs in `Write` is the translated `service.ringCopy`:
+`C17_wrap_ringCopy_is_source` in `Properties/C17Source.lean` (over the regenerated translation
+`Mqtt.Generated.Xlate`; nothing imports that module).  The tie below is to the regenerated FACTS. -/
 
 /-- The statement-level shape of `writeMessage` regenerated from sendrecv.go
 (`extract/facts_wrap.go`: `l := msg.Len()`, Lock, deferred Unlock, `WriteWait(l)`, `if wrap`;
